@@ -1,6 +1,6 @@
 //! Library-level bindings (public API of the `copia` crate only): rolling checksums (C17),
 //! delta engine (C01, C16), patch under corruption (C05), codecs (C20).
-#![allow(dead_code, clippy::all)]
+#![allow(dead_code, unused_imports, clippy::all)]
 
 use copia::{FastRollingChecksum, RollingChecksum};
 use rand::{Rng, SeedableRng};
@@ -8,6 +8,41 @@ use rand::rngs::StdRng;
 use serde_json::{json, Value};
 use std::panic::{catch_unwind, AssertUnwindSafe};
 use vh::util::{read_ndjson, NdjsonWriter};
+
+
+// Counting allocator: lets the codec checks observe how much memory a decode call reserves.
+mod countalloc {
+    use std::alloc::{GlobalAlloc, Layout, System};
+    use std::sync::atomic::{AtomicUsize, Ordering};
+    pub static LIVE: AtomicUsize = AtomicUsize::new(0);
+    pub static PEAK: AtomicUsize = AtomicUsize::new(0);
+    pub static MAXONE: AtomicUsize = AtomicUsize::new(0);
+    pub struct Counting;
+    unsafe impl GlobalAlloc for Counting {
+        unsafe fn alloc(&self, l: Layout) -> *mut u8 { note(l.size()); System.alloc(l) }
+        unsafe fn alloc_zeroed(&self, l: Layout) -> *mut u8 { note(l.size()); System.alloc_zeroed(l) }
+        unsafe fn dealloc(&self, p: *mut u8, l: Layout) { LIVE.fetch_sub(l.size(), Ordering::Relaxed); System.dealloc(p, l) }
+        unsafe fn realloc(&self, p: *mut u8, l: Layout, n: usize) -> *mut u8 {
+            if n > l.size() { note(n - l.size()); MAXONE.fetch_max(n, Ordering::Relaxed); } else { LIVE.fetch_sub(l.size() - n, Ordering::Relaxed); }
+            System.realloc(p, l, n)
+        }
+    }
+    fn note(sz: usize) {
+        let live = LIVE.fetch_add(sz, Ordering::Relaxed) + sz;
+        PEAK.fetch_max(live, Ordering::Relaxed);
+        MAXONE.fetch_max(sz, Ordering::Relaxed);
+    }
+    /// run f and return (result, peak additional live bytes during f, largest single request)
+    pub fn measure<T>(f: impl FnOnce() -> T) -> (T, usize, usize) {
+        let base = LIVE.load(Ordering::Relaxed);
+        PEAK.store(base, Ordering::Relaxed);
+        MAXONE.store(0, Ordering::Relaxed);
+        let r = f();
+        (r, PEAK.load(Ordering::Relaxed).saturating_sub(base), MAXONE.load(Ordering::Relaxed))
+    }
+}
+#[global_allocator]
+static GLOBAL: countalloc::Counting = countalloc::Counting;
 
 mod rolling {
     use super::*;
@@ -893,6 +928,231 @@ fn cmd_patch_random(args: &[String]) {
     let _ = std::fs::remove_dir_all(&dir);
 }
 
+
+// ---------------------------------------------------------------------------------------------
+// C20: framed codec
+// ---------------------------------------------------------------------------------------------
+mod codecx {
+    use super::*;
+    use copia::{BlockSignature, Codec, CopiaError, Delta, DeltaOp, FrameHeader, Message, Signature, StrongHash};
+
+    pub fn sample_message(kind: &str, variant: usize, rng: &mut StdRng) -> Message {
+        let sig = |n: usize, rng: &mut StdRng| Signature { block_size: [512usize, 2048, 65536][variant % 3], file_size: rng.gen(), blocks: (0..n).map(|i| BlockSignature::new(i as u32, rng.gen(), StrongHash::from_bytes(rng.gen()))).collect() };
+        match kind {
+            "SignatureRequest" => Message::SignatureRequest { file_id: rng.gen(), block_size: rng.gen() },
+            "SignatureResponse" => Message::SignatureResponse { file_id: rng.gen(), signature: sig([0usize, 3, 2000][variant % 3], rng) },
+            "DeltaData" => {
+                let mut d = Delta::with_checksum(rng.gen(), rng.gen(), rng.gen(), StrongHash::from_bytes(rng.gen()));
+                let nops = [0usize, 4, 300][variant % 3];
+                for i in 0..nops {
+                    if i % 2 == 0 { d.ops.push(DeltaOp::Copy { offset: rng.gen(), len: rng.gen() }); }
+                    else { d.ops.push(DeltaOp::Literal((0..rng.gen_range(0..400)).map(|_| rng.gen()).collect())); }
+                }
+                Message::DeltaData { file_id: rng.gen(), delta: d }
+            }
+            "Ack" => Message::Ack { file_id: rng.gen(), success: rng.gen(), message: if variant % 2 == 0 { None } else { Some("ok \u{e9} \n".repeat(variant)) } },
+            "Error" => Message::Error { code: rng.gen(), message: ["".to_string(), "boom".to_string(), "x".repeat(5000)][variant % 3].clone() },
+            "Ping" => Message::Ping { seq: rng.gen() },
+            _ => Message::Pong { seq: rng.gen() },
+        }
+    }
+
+    pub fn class<T>(r: &std::thread::Result<Result<T, CopiaError>>) -> &'static str {
+        match r {
+            Err(_) => "PANIC",
+            Ok(Ok(_)) => "Ok",
+            Ok(Err(CopiaError::ProtocolError(_))) => "Protocol",
+            Ok(Err(CopiaError::Io(_))) => "Io",
+            Ok(Err(_)) => "OtherError",
+        }
+    }
+}
+
+/// args: cases.ndjson out.ndjson seed
+fn cmd_codec_cases(args: &[String]) {
+    use copia::{Codec, FrameHeader, Message};
+    let cases = read_ndjson(&args[0]);
+    let mut w = NdjsonWriter::create(&args[1]);
+    let seed: u64 = args[2].parse().unwrap();
+    let mut rng = StdRng::seed_from_u64(seed);
+    const BOUND: usize = 16 * 1024 * 1024;
+    let (mut evals, mut nontrivial) = (0u64, 0u64);
+    let big = vec![0u8; BOUND];   // backing bytes for eof / oversize cases are never needed beyond the header
+    let _ = &big;
+    for (ci, cj) in cases.iter().enumerate() {
+        let c = &cj["c"];
+        let msg = codecx::sample_message(c["kind"].as_str().unwrap(), ci, &mut rng);
+        let payload = msg.encode().unwrap();
+        let e = payload.len();
+        let lenc = c["len"].as_str().unwrap();
+        let (decl, avail): (u32, usize) = match lenc {
+            "zero" => (0, 0),
+            "trunc" => ((e - 1 - (ci % e.min(5))) as u32, e),   // declared < encoded size
+            "exact" => (e as u32, e),
+            "pad" => ((e + 1 + ci % 7) as u32, e + 1 + ci % 7),
+            "eof" => ((e + 9) as u32, e / 2),
+            "max1" => ((BOUND + 1) as u32, e),
+            _ => (u32::MAX, e),
+        };
+        let mut hdr = [0u8; 12];
+        hdr[..4].copy_from_slice(b"COPA");
+        match c["magic"].as_str().unwrap() { "bad1" => hdr[0] ^= 0x20, "bad2" => hdr[1] = 0, "bad3" => hdr[2] = b'p', "bad4" => hdr[3] = 0xff, _ => {} }
+        hdr[4..8].copy_from_slice(&decl.to_le_bytes());
+        hdr[8] = c["type"].as_u64().unwrap() as u8;
+        hdr[9] = c["ver"].as_u64().unwrap() as u8;
+        hdr[10..12].copy_from_slice(&((ci % 3) as u16).to_le_bytes());
+        let mut stream: Vec<u8> = hdr.to_vec();
+        let mut body = payload.clone();
+        body.resize(avail.max(body.len().min(avail)), 0xAB);
+        body.truncate(avail);
+        stream.extend_from_slice(&body);
+        match c["cut"].as_str().unwrap() { "cut0" => stream.truncate(0), "cut5" => stream.truncate(5), "cut11" => stream.truncate(11), _ => {} }
+        let want = cj["want"].as_str().unwrap();
+        if want != "Ok" { nontrivial += 1; }
+        // Codec::read_message over the stream
+        let (r, peak, one) = countalloc::measure(|| catch_unwind(AssertUnwindSafe(|| { let mut codec = Codec::new(); codec.read_message(&mut &stream[..]) })));
+        evals += 1;
+        let got = codecx::class(&r);
+        let inp = json!({"c":c,"declared_len":decl,"available":avail,"encoded":e});
+        if got == "PANIC" { w.write(&json!({"kind":"violation","case":ci,"what":"Codec::read_message panicked","input":inp})); }
+        else if got == "Ok" && want != "Ok" { w.write(&json!({"kind":"violation","case":ci,"what":format!("Codec::read_message accepted a frame that must be an error (spec: {want})"),"input":inp})); }
+        else if got != want { w.write(&json!({"kind": if want == "Ok" {"violation"} else {"nonconf"},"case":ci,"what":format!("Codec::read_message -> {got}, spec {want}"),"input":inp})); }
+        if got == "Ok" { if let Ok(Ok(m)) = &r { if *m != msg { w.write(&json!({"kind":"violation","case":ci,"what":"decoded message differs from the original","input":inp})); } } }
+        if peak > BOUND + (1 << 20) + 2 * e || one > BOUND + 4096 { w.write(&json!({"kind":"violation","case":ci,"what":format!("read_message reserved {peak} bytes (largest single request {one}) > 16 MiB bound"),"input":inp})); }
+        // FrameHeader::decode on the 12 header bytes, FrameHeader::read_from on the stream
+        if c["cut"] == "full" {
+            let r = catch_unwind(|| FrameHeader::decode(&hdr));
+            evals += 1;
+            let got = codecx::class(&r);
+            let wanth = cj["hdr"].as_str().unwrap();
+            if got == "PANIC" || (got == "Ok") != (wanth == "Ok") {
+                w.write(&json!({"kind":"violation","case":ci,"what":format!("FrameHeader::decode -> {got}, spec {wanth}"),"input":inp}));
+            } else if let Ok(Ok(h)) = &r {
+                if h.encode() != hdr { w.write(&json!({"kind":"violation","case":ci,"what":"encode(decode(header)) != header bytes","input":inp})); }
+            }
+        }
+        // Message::decode on the frame's payload bytes
+        if c["cut"] == "full" && matches!(lenc, "zero" | "trunc" | "exact" | "pad") {
+            let pl = &body[..(decl as usize).min(body.len())];
+            let (r, peak, _one) = countalloc::measure(|| catch_unwind(|| Message::decode(pl)));
+            evals += 1;
+            let got = codecx::class(&r);
+            let wantm = if matches!(lenc, "exact" | "pad") { "Ok" } else { "Protocol" };
+            if got == "PANIC" || got != wantm { w.write(&json!({"kind": if got == "PANIC" || wantm == "Ok" {"violation"} else {"nonconf"},"case":ci,"what":format!("Message::decode -> {got}, spec {wantm}"),"input":inp})); }
+            if peak > BOUND { w.write(&json!({"kind":"violation","case":ci,"what":format!("Message::decode reserved {peak} bytes"),"input":inp})); }
+        }
+    }
+    w.write(&json!({"kind":"summary","cases":cases.len(),"evaluations":evals,"nontrivial":nontrivial}));
+    w.finish();
+}
+
+
+/// args: n out.ndjson seed copia_bin workdir   (code -> spec for C20)
+fn cmd_codec_random(args: &[String]) {
+    use copia::{Codec, CopiaSync, Delta, Message, Signature, Sync};
+    use std::io::Cursor;
+    let n: usize = args[0].parse().unwrap();
+    let mut w = NdjsonWriter::create(&args[1]);
+    let seed: u64 = args[2].parse().unwrap();
+    let copia = args[3].clone();
+    let dir = std::path::PathBuf::from(&args[4]);
+    std::fs::create_dir_all(&dir).unwrap();
+    let mut rng = StdRng::seed_from_u64(seed);
+    let kinds = ["SignatureRequest", "SignatureResponse", "DeltaData", "Ack", "Error", "Ping", "Pong"];
+    // (1) round trips through the framed codec, 1-3 messages per stream
+    let mut k = 0usize;
+    while k < n {
+        let cnt = rng.gen_range(1..=3);
+        let msgs: Vec<Message> = (0..cnt).map(|i| codecx::sample_message(kinds[rng.gen_range(0..7)], k + i, &mut rng)).collect();
+        let mut stream = Vec::new();
+        let codec = Codec::new();
+        let mut offs = vec![];
+        for m in &msgs { offs.push(stream.len()); codec.write_message(&mut stream, m).unwrap(); }
+        let mut rd = Codec::new();
+        let mut cur = &stream[..];
+        for (i, m) in msgs.iter().enumerate() {
+            let back = catch_unwind(AssertUnwindSafe(|| rd.read_message(&mut cur)));
+            let eq = matches!(&back, Ok(Ok(b)) if b == m);
+            let hdr: Vec<u8> = stream[offs[i]..offs[i] + 12].to_vec();
+            let plen = if i + 1 < offs.len() { offs[i + 1] } else { stream.len() } - offs[i] - 12;
+            w.write(&json!({"ev":"rt","hdr":hdr,"plen":plen,"decoded_eq":eq,"type_code":m.msg_type() as u8,"kind":format!("{:?}", m.msg_type())}));
+            k += 1;
+        }
+    }
+    // (2) the CLI's files: bincode of Signature / Delta, through the real binary, read back with the library
+    let basis: Vec<u8> = (0..20_000).map(|_| rng.gen()).collect();
+    let mut source = basis.clone();
+    source.splice(5000..5000, (0..300).map(|_| rng.gen::<u8>()));
+    std::fs::write(dir.join("b"), &basis).unwrap();
+    std::fs::write(dir.join("s"), &source).unwrap();
+    let run = |a: &[&str]| std::process::Command::new(&copia).args(a).env("RUST_LOG", "off").output().unwrap().status.success();
+    let p = |x: &str| dir.join(x).to_str().unwrap().to_string();
+    let ok1 = run(&["signature", &p("b"), "-o", &p("sig"), "-b", "2048"]);
+    let ok2 = run(&["delta", &p("s"), &p("sig"), "-o", &p("d")]);
+    let lib_sig = CopiaSync::with_block_size(2048).signature(Cursor::new(&basis)).unwrap();
+    let lib_delta = CopiaSync::with_block_size(2048).delta(Cursor::new(&source), &lib_sig).unwrap();
+    let sig_bytes = std::fs::read(dir.join("sig")).unwrap_or_default();
+    let d_bytes = std::fs::read(dir.join("d")).unwrap_or_default();
+    w.write(&json!({"ev":"file","what":"signature","decoded_eq": ok1 && bincode::deserialize::<Signature>(&sig_bytes).map(|x| x == lib_sig).unwrap_or(false)}));
+    w.write(&json!({"ev":"file","what":"delta","decoded_eq": ok2 && bincode::deserialize::<Delta>(&d_bytes).map(|x| x == lib_delta).unwrap_or(false)}));
+    // (3) corrupted files through `copia delta` / `copia patch`
+    let cli = |which: &str, file: &[u8]| -> Value {
+        use std::os::unix::process::ExitStatusExt;
+        let f = if which == "delta" { "csig" } else { "cd" };
+        std::fs::write(dir.join(f), file).unwrap();
+        let cmdline = if which == "delta" { format!("ulimit -v 1000000; exec timeout 20 '{}' delta '{}' '{}' -o '{}'", copia, p("s"), p("csig"), p("o")) }
+                      else { format!("ulimit -v 1000000; exec timeout 20 '{}' patch '{}' '{}' -o '{}'", copia, p("b"), p("cd"), p("o")) };
+        let o = std::process::Command::new("sh").arg("-c").arg(&cmdline).env("RUST_LOG", "off").output().unwrap();
+        let code = o.status.code();
+        let stderr = String::from_utf8_lossy(&o.stderr).to_string();
+        json!({"exit": code.unwrap_or(-1), "signaled": o.status.signal().is_some() || code.map_or(false, |c| c > 128 && c != 124), "timed_out": code == Some(124),
+               "reported": stderr.contains("Error"), "stderr": stderr.chars().take(160).collect::<String>()})
+    };
+    let mut emit = |w: &mut NdjsonWriter, which: &str, label: String, file: &[u8], must_fail: bool| {
+        let mut r = cli(which, file);
+        let m = r.as_object_mut().unwrap();
+        m.insert("ev".into(), json!("cli")); m.insert("cmd".into(), json!(which)); m.insert("corruption".into(), json!(label)); m.insert("must_fail".into(), json!(must_fail));
+        w.write(&r);
+    };
+    let put = |f: &[u8], at: usize, bytes: &[u8]| { let mut v = f.to_vec(); v[at..at + bytes.len()].copy_from_slice(bytes); v };
+    // signature file layout: block_size u64 | file_size u64 | count u64 | (index u32, weak u32, strong [32])*
+    for bs in [0u64, 1, 511, 1000, 2047, 131072, 1 << 63, u64::MAX] { emit(&mut w, "delta", format!("sig.block_size={bs}"), &put(&sig_bytes, 0, &bs.to_le_bytes()), true); }
+    for bs in [512u64, 1024, 65536] { emit(&mut w, "delta", format!("sig.block_size={bs} (valid, different)"), &put(&sig_bytes, 0, &bs.to_le_bytes()), false); }
+    for fs in [0u64, 1, u64::MAX] { emit(&mut w, "delta", format!("sig.file_size={fs}"), &put(&sig_bytes, 8, &fs.to_le_bytes()), false); }
+    let nblk = lib_sig.blocks.len() as u64;
+    for c in [nblk + 1, 1 << 32, 1 << 63, u64::MAX] { emit(&mut w, "delta", format!("sig.block_count={c}"), &put(&sig_bytes, 16, &c.to_le_bytes()), true); }
+    for c in [0u64, nblk - 1] { emit(&mut w, "delta", format!("sig.block_count={c} (fewer)"), &put(&sig_bytes, 16, &c.to_le_bytes()), false); }
+    for cut in [0usize, 1, 7, 8, 16, 23, 24, 28, 63, 64, sig_bytes.len() - 1] { emit(&mut w, "delta", format!("sig truncated at {cut}"), &sig_bytes[..cut], true); }
+    emit(&mut w, "delta", "sig.index=u32::MAX".into(), &put(&sig_bytes, 24, &u32::MAX.to_le_bytes()), false);
+    for _ in 0..40 { let mut v = sig_bytes.clone(); let i = rng.gen_range(0..v.len()); v[i] ^= 1 << rng.gen_range(0..8); emit(&mut w, "delta", format!("sig bit flip at {i}"), &v, false); }
+    for len in [3usize, 100, 5000] { let v: Vec<u8> = (0..len).map(|_| rng.gen()).collect(); emit(&mut w, "delta", format!("sig garbage {len}"), &v, false); }
+    // delta file layout: block_size u32 | source_size u64 | basis_size u64 | op count u64 | ops | checksum [32]
+    for bs in [0u32, 1, 1000, 2047, 1 << 20, u32::MAX] { emit(&mut w, "patch", format!("delta.block_size={bs}"), &put(&d_bytes, 0, &bs.to_le_bytes()), true); }
+    for c in [lib_delta.ops.len() as u64 + 1, 1 << 32, 1 << 63, u64::MAX] { emit(&mut w, "patch", format!("delta.op_count={c}"), &put(&d_bytes, 20, &c.to_le_bytes()), true); }
+    for cut in [0usize, 3, 4, 12, 20, 27, 28, 31, 32, 40, d_bytes.len() - 33, d_bytes.len() - 1] { emit(&mut w, "patch", format!("delta truncated at {cut}"), &d_bytes[..cut.min(d_bytes.len())], true); }
+    emit(&mut w, "patch", "delta.op[0] variant=7".into(), &put(&d_bytes, 28, &7u32.to_le_bytes()), true);
+    // hostile deltas built as values: huge copy with huge declared basis, huge literal length prefix
+    {
+        let mut d = lib_delta.clone();
+        d.basis_size = u64::MAX;
+        d.ops = vec![copia::DeltaOp::Copy { offset: 0, len: u32::MAX }];
+        d.source_size = u64::from(u32::MAX);
+        emit(&mut w, "patch", "delta: copy len 4 GiB - 1 with basis_size u64::MAX".into(), &bincode::serialize(&d).unwrap(), true);
+        d.ops = (0..64).map(|_| copia::DeltaOp::Copy { offset: 0, len: u32::MAX }).collect();
+        d.source_size = 64 * u64::from(u32::MAX);
+        emit(&mut w, "patch", "delta: 64 copies of 4 GiB - 1".into(), &bincode::serialize(&d).unwrap(), true);
+        let mut d2 = lib_delta.clone();
+        d2.ops = vec![copia::DeltaOp::Literal(vec![1, 2, 3])];
+        let mut bytes = bincode::serialize(&d2).unwrap();
+        bytes[32..40].copy_from_slice(&(1u64 << 40).to_le_bytes());   // literal length prefix
+        emit(&mut w, "patch", "delta: literal length prefix 2^40".into(), &bytes, true);
+    }
+    for _ in 0..60 { let mut v = d_bytes.clone(); let i = rng.gen_range(0..v.len()); v[i] ^= 1 << rng.gen_range(0..8); emit(&mut w, "patch", format!("delta bit flip at {i}"), &v, false); }
+    for len in [0usize, 3, 100, 5000] { let v: Vec<u8> = (0..len).map(|_| rng.gen()).collect(); emit(&mut w, "patch", format!("delta garbage {len}"), &v, len < 28); }
+    w.finish();
+    let _ = std::fs::remove_dir_all(&dir);
+}
+
 fn main() {
     std::panic::set_hook(Box::new(|_| {}));
     let args: Vec<String> = std::env::args().skip(1).collect();
@@ -903,6 +1163,8 @@ fn main() {
         "delta-large" => cmd_delta_large(rest),
         "patch-cases" => cmd_patch_cases(rest),
         "patch-random" => cmd_patch_random(rest),
+        "codec-cases" => cmd_codec_cases(rest),
+        "codec-random" => cmd_codec_random(rest),
         x => { eprintln!("unknown subcommand {x}"); std::process::exit(2) }
     }
 }
